@@ -12,6 +12,8 @@ WS(K, V) == {<<>>} \cup Singles(K, V)
 WSsmall == {<<>>} \cup Singles(NK2, NV1) \cup {<<W(<<97>>, TRUE, <<>>), W(<<97, 98>>, FALSE, <<1>>)>>}
 WSfull == WS(NK, NV)
 WSmid == {<<>>} \cup Singles(NK, NV1) \cup {<<W(k1, TRUE, <<>>), W(k2, FALSE, <<1>>)>> : k1 \in NK, k2 \in NK}
+\* single writes over three keys (a prefix pair and a key on the other side of the root): one line of versions
+WSline == {<<>>} \cup Singles(NK, NV1)
 TBoth == {"state", "io"}
 TState == {"state"}
 =============================================================================
